@@ -100,6 +100,15 @@ func (sc *Scenario) Build(prop string, seed int64, idx int, r *rand.Rand, mons .
 		panic("harness genesis invalid: " + err.Error())
 	}
 	w.StakePeriod, w.ExpirePeriod = sc.Opts.StakePeriod, sc.Opts.ExpirePeriod
+	if sc.Opts.Dir == "" && sc.Opts.AppDir == "" {
+		base := os.Getenv("VERIF_TMP")
+		if base == "" {
+			base = "/dev/shm"
+		}
+		if d, err := os.MkdirTemp(base, "app"); err == nil {
+			sc.Opts.AppDir = d // app DB on disk (removed by Sim.Finish): restarts then work like real ones
+		}
+	}
 	s := NewSim(prop, seed, idx, gen, w, sc.Opts, r, mons...)
 	d := NewDriver(s, r)
 	if sc.Family == "locktime" {
